@@ -171,6 +171,13 @@ class Inliner:
         mapping = {n: '_i%d_%s' % (k, n) for n in _local_names(fn)}
         if self_expr is not None:
             mapping.pop(fn.args.args[0].arg if fn.args.args else 'self', None)
+        # a parameter that the helper never rebinds and that receives a plain variable IS that variable (no alias is introduced)
+        rebound = {n.id for st in body for n in ast.walk(st) if isinstance(n, ast.Name) and isinstance(n.ctx, (ast.Store, ast.Del))}
+        direct = set()
+        for p, a in binding.items():
+            if isinstance(a, ast.Name) and p not in rebound and p in mapping and a.id not in mapping.values():
+                mapping[p] = a.id
+                direct.add(p)
         new_body = [_Rename(mapping).visit(copy.deepcopy(st)) for st in body]
         if self_expr is not None:
             selfname = (fn.args.posonlyargs + fn.args.args)[0].arg
@@ -178,6 +185,8 @@ class Inliner:
                 new_body = [_Rename({selfname: 'self'}).visit(st) for st in new_body]
         stmts = []
         for p, a in binding.items():
+            if p in direct:
+                continue
             stmts.append(ast.copy_location(ast.Assign([ast.Name(mapping.get(p, p), ast.Store())], a), call))
         conv, returned = single_exit(new_body, res)
         if not returned:
